@@ -312,7 +312,9 @@ pub struct Layout {
     pub gap: usize,
     /// root placed at 127 + gap instead of 127
     pub root_gap: bool,
-    /// leaves serialised parent-first (false) or child-first (true) inside the leaf section
+    /// false: depth-first post-order (every leaf directly behind its own children);
+    /// true: level order from the deepest level up (all grandchildren, then all children), which puts
+    /// sibling leaves back to back while their children lie elsewhere
     pub leaves_child_first: bool,
     /// gap between leaves inside the leaf section
     pub leaf_gap: usize,
@@ -361,6 +363,75 @@ fn ser_dir(nodes: &[Node], comp: u8, leafsec: &mut Vec<u8>, lay: &Layout, depth:
     codec::compress(comp, &dir::encode(&entries))
 }
 
+/// level-order variant: all directories of the deepest level first, then the level above, ... then the root
+fn ser_dir_levels(root: &[Node], comp: u8, leafsec: &mut Vec<u8>, lay: &Layout, dirs: &mut Vec<(u32, Vec<SEntry>)>) -> Vec<u8> {
+    // flatten: every directory gets an index; children lists refer to indices
+    struct D<'a> {
+        depth: u32,
+        nodes: &'a [Node],
+        placed: Option<(u64, u32)>,
+    }
+    fn collect<'a>(nodes: &'a [Node], depth: u32, all: &mut Vec<D<'a>>) -> usize {
+        let idx = all.len();
+        all.push(D { depth, nodes, placed: None });
+        for n in nodes {
+            if let Node::Leaf(_, kids) = n {
+                collect(kids, depth + 1, all);
+            }
+        }
+        idx
+    }
+    let mut all: Vec<D> = Vec::new();
+    collect(root, 0, &mut all);
+    let maxd = all.iter().map(|d| d.depth).max().unwrap_or(0);
+    let mut entries_of: Vec<Vec<SEntry>> = vec![Vec::new(); all.len()];
+    let mut root_bytes = Vec::new();
+    for depth in (0..=maxd).rev() {
+        for i in 0..all.len() {
+            if all[i].depth != depth {
+                continue;
+            }
+            // children of directory i are the directories collected directly after it, in order
+            let mut entries = Vec::new();
+            let mut next_child = i + 1;
+            for n in all[i].nodes {
+                match n {
+                    Node::Tile(e) => entries.push(*e),
+                    Node::Leaf(first, _) => {
+                        // find the next directory at depth+1 starting from next_child
+                        while all[next_child].depth != depth + 1 {
+                            next_child += 1;
+                        }
+                        let (off, len) = all[next_child].placed.expect("child placed before parent");
+                        entries.push(SEntry::new(*first, off, len, 0));
+                        next_child += 1;
+                        // skip the child's own descendants
+                        while next_child < all.len() && all[next_child].depth > depth + 1 {
+                            next_child += 1;
+                        }
+                    }
+                }
+            }
+            let bytes = codec::compress(comp, &dir::encode(&entries));
+            entries_of[i] = entries;
+            if depth == 0 {
+                root_bytes = bytes;
+            } else {
+                for _ in 0..lay.leaf_gap {
+                    leafsec.push(SENTINEL);
+                }
+                let off = leafsec.len() as u64;
+                leafsec.extend_from_slice(&bytes);
+                all[i].placed = Some((off, bytes.len() as u32));
+            }
+        }
+    }
+    for (i, d) in all.iter().enumerate() {
+        dirs.push((d.depth, entries_of[i].clone()));
+    }
+    root_bytes
+}
+
 fn expand(nodes: &[Node], out: &mut BTreeMap<u64, (u64, u32)>, tile_entries: &mut Vec<SEntry>) {
     for n in nodes {
         match n {
@@ -386,7 +457,11 @@ pub fn encode_foreign(
 ) -> Foreign {
     let mut leafsec = Vec::new();
     let mut dirs = Vec::new();
-    let root_bytes = ser_dir(root, comp, &mut leafsec, lay, 0, &mut dirs);
+    let root_bytes = if lay.leaves_child_first {
+        ser_dir_levels(root, comp, &mut leafsec, lay, &mut dirs)
+    } else {
+        ser_dir(root, comp, &mut leafsec, lay, 0, &mut dirs)
+    };
     let meta_bytes = meta.map(|m| codec::compress(comp, m)).unwrap_or_default();
 
     let mut out = vec![0u8; 127];
